@@ -109,6 +109,14 @@ func (w *World) resolveContract(fr *Frame, c *ssa.CallCommon, st *State) (*Contr
 	}
 	fn, _, _ := w.calleeOf(fr, st, c, nil)
 	if fn != nil {
+		// a callspec of the function under contract named after a module
+		// function ("(*Object).Set") refines that function's contract at
+		// the calls made here
+		if fr.top && fr.contract != nil && w.inModule(fn) {
+			if cs := fr.contract.CallSpecs[funcName(fn)]; cs != nil {
+				return cs, fn
+			}
+		}
 		return w.contractFor(fn), fn
 	}
 	var specs map[string]*Contract
@@ -118,6 +126,9 @@ func (w *World) resolveContract(fr *Frame, c *ssa.CallCommon, st *State) (*Contr
 		specs = fr.callspecs
 	}
 	if name := calleeVarName(c.Value); name != "" && specs != nil {
+		if fr.top {
+			name = w.contractNameOf(name)
+		}
 		if cs := specs[name]; cs != nil {
 			return cs, nil
 		}
@@ -138,7 +149,7 @@ func (w *World) resolveContract(fr *Frame, c *ssa.CallCommon, st *State) (*Contr
 		}
 		sortStrings(names)
 		for _, k := range names {
-			if t := varTypeByName(top.fn, k); t != nil && types.Identical(t, c.Value.Type()) {
+			if t := varTypeByName(top.fn, w.realNameOf(k)); t != nil && types.Identical(t, c.Value.Type()) {
 				found = specs[k]
 				n++
 			}
@@ -550,6 +561,21 @@ func (w *World) applyContract(fr *Frame, st *State, ct *Contract, names []string
 				keep[k] = w.hget(st, k)
 			}
 		}
+		if !ct.ModAll && w.topContract != nil && len(w.topContract.UnknownPreserve) > 0 {
+			// the callee's contract says nothing about its frame: it is as
+			// unknown as that of a call without a contract
+			var tpkg *types.Package
+			if p := w.l.All[w.topContract.Pkg]; p != nil {
+				tpkg = p.Types
+			}
+			uenv := &CEnv{w: w, pkg: tpkg, vars: map[string]*Val{}, cur: st, old: st}
+			for _, pe := range w.topContract.UnknownPreserve {
+				for _, k := range w.preservedKeys(uenv, pe) {
+					keep[k] = w.hget(st, k)
+				}
+			}
+			w.assumption("in " + w.topContract.Name + ", calls without a stated frame are assumed to leave the heap keys of its unknown_calls_preserve clause unchanged")
+		}
 		w.havocAll(st)
 		for k, v := range keep {
 			st.heap[k] = v
@@ -560,7 +586,7 @@ func (w *World) applyContract(fr *Frame, st *State, ct *Contract, names []string
 	w.assumeResultWF(st, res)
 	post := &CEnv{w: w, pkg: pkg, vars: vars, cur: st, old: pre, lets: ct.Lets}
 	for _, en := range ct.Ensures {
-		if en.Withdrawn {
+		if en.Withdrawn || en.Local {
 			continue
 		}
 		func() {
